@@ -1,6 +1,7 @@
 package main
 
 import (
+	"strings"
 	"time"
 
 	"verifsim/simnet"
@@ -46,8 +47,16 @@ func applyUDPFaultProfile(s *spec.RunSpec, r *simnet.Rng, liveness bool) {
 	n := &s.Net
 	profiles := []string{"udp-clean", "udp-light", "udp-light", "udp-heavy", "udp-bursty", "udp-partition", "udp-targeted", "udp-targeted"}
 	prof := profiles[r.Intn(len(profiles))]
+	if strings.Contains(s.Profile, "+slow-reader") {
+		// thousands of tiny segments: sustained heavy loss would make the run last for virtual
+		// hours (each round of retransmissions loses its share again)
+		if prof == "udp-heavy" {
+			prof = "udp-light"
+		}
+		prof += "+slow-reader"
+	}
 	s.Profile = prof
-	switch prof {
+	switch strings.TrimSuffix(prof, "+slow-reader") {
 	case "udp-clean":
 	case "udp-light":
 		n.DropRate = 0.01 + 0.05*r.Float()
